@@ -38,6 +38,7 @@ def main(argv):
         'C09': lambda: props_def.check_c09(tier, seed),
         'C10': lambda: props_def.check_c10(tier, seed),
         'C11': lambda: props_def.check_c11(tier, seed),
+        'C16': lambda: props_def.check_c16(tier, seed),
         'C17': lambda: props_def.check_c17(tier, seed),
         'C19': lambda: props_def.check_c19(tier, seed),
         'C18': lambda: props_def.check_c18(tier, seed),
